@@ -28,7 +28,7 @@ def shards(tier):
     return 16
 
 
-_items = st.lists(st.sampled_from([1, 2, 3, 4, 'POISON']), max_size=5)
+_items = st.lists(st.sampled_from([1, 2, 3, 4, 'POISON', ['T', 5], ['U', 6]]), max_size=5)
 
 
 def strategy(tier):
